@@ -3,6 +3,7 @@ package main
 import (
 	"encoding/binary"
 	"strconv"
+	"strings"
 
 	"verifharness/lib"
 )
@@ -263,6 +264,46 @@ func genC17(rec *lib.Rec, r *lib.Rng, thorough bool) {
 				}
 			}
 			rec.Op("S", "read equalsym "+segsStr(encodeRandom(r, pair(c1, c2)))+" "+strconv.Itoa(r.Pick(0, 4, 8, 8))+" "+strconv.Itoa(r.Intn(256)), true)
+		}
+		if i%4 == 1 {
+			// capability identity inside one message, full verdict: against the table of eight distinct live clients two
+			// capability pointers are equal exactly when their indices are, also when an index lies outside the table
+			// and wherever in the message (same segment or not) the two pointers sit
+			c1, c2 := clone(v), clone(v)
+			var n1, n2 []*Val
+			nodes(c1, &n1)
+			nodes(c2, &n2)
+			for k := range n1 {
+				if n1[k].Kind == vCap || (n1[k].Kind == vNull && r.Chance(1, 4)) {
+					idx := uint32(r.Intn(11))
+					n1[k].Kind, n1[k].Cap = vCap, idx
+					n2[k].Kind, n2[k].Cap = vCap, idx
+					if r.Chance(1, 3) {
+						n2[k].Cap = uint32(r.Pick(8, 9, 10, r.Intn(11)))
+					}
+				}
+			}
+			res := rec.Op("S", "read equalin "+segsStr(Encode(r, pair(c1, c2), 2+r.Intn(3), r.Intn(8), r.Intn(8), r.Bool())), true)
+			rec.Count("in-message-caps " + res)
+			box := func(c int) *Val { return &Val{Kind: vStruct, Ptrs: []*Val{{Kind: vCap, Cap: uint32(c)}}} }
+			rec.Op("S", "read equalin "+segsStr(Encode(r, pair(box(r.Intn(11)), box(8+r.Intn(3))), 3, 0, 0, r.Bool())), true)
+		}
+		// a value equals its deep copy: into a fresh message, over old content of a larger struct or list element, and
+		// element by element out of a (primitive, pointer or struct) list
+		if i%2 == 0 {
+			mode := r.Intn(4)
+			x := v
+			if mode == 3 && r.Chance(2, 3) {
+				b2 := 1 + r.Intn(4)
+				x = genList(r, 2, &b2)
+				var xs []*Val
+				nodes(x, &xs)
+				for _, nd := range xs {
+					nd.Cap %= 8
+				}
+			}
+			res := rec.Op("S", "read equalcopy "+segsStr(encodeRandom(r, x))+" "+strconv.Itoa(mode), true)
+			rec.Count("copy mode " + strconv.Itoa(mode) + " " + strings.Fields(res)[0])
 		}
 		// unrelated
 		if i%5 == 0 {
